@@ -349,6 +349,40 @@ Definition expand (w : list cb) : list cb := flat_map expand_cb w.
 Fixpoint vbound (B : nat) (fuel : nat) : nat :=
   match fuel with O => 1 | S f => 1 + B * vbound B f end.
 
+(* ---- the paint graph as a relation (specification side, used by the cycle theorems) ---- *)
+Inductive edge (I : inst) : rpaint -> rpaint -> Prop :=
+| e_layer st num i ref id q :
+    (st <= i)%N -> (i < st + N.of_nat num)%N -> layer I i = Some (ref, id) -> resolve I ref = Some q ->
+    edge I (RLayers st num) q
+| e_glyph g c q : resolve I c = Some q -> edge I (RGlyph g c) q
+| e_colr g ref id q : base_glyph I g = BSome ref id -> resolve I ref = Some q -> edge I (RColrGlyph g) q
+| e_xf c q : resolve I c = Some q -> edge I (RTransform c) q
+| e_src a m b q : resolve I a = Some q -> edge I (RComposite a m b) q
+| e_back a m b q : resolve I b = Some q -> edge I (RComposite a m b) q.
+
+(* [deep I n p]: a path of n edges starts at p (a reachable cycle gives [forall n, deep I n p]) *)
+Inductive deep (I : inst) : nat -> rpaint -> Prop :=
+| deep0 p : deep I 0 p
+| deepS n p q : edge I p q -> deep I n q -> deep I (S n) p.
+
+(* [closed I n p]: every reference made within n edges of p resolves (no ReadError, no missing glyph) *)
+Fixpoint closed (I : inst) (n : nat) (p : rpaint) : Prop :=
+  match n with
+  | O => True
+  | S n' =>
+      match p with
+      | RLayers st num => forall i, (st <= i)%N -> (i < st + N.of_nat num)%N ->
+          exists ref id q, layer I i = Some (ref, id) /\ resolve I ref = Some q /\ closed I n' q
+      | RFill _ => True
+      | RGlyph _ c | RTransform c => exists q, resolve I c = Some q /\ closed I n' q
+      | RColrGlyph g => exists ref id q, base_glyph I g = BSome ref id /\ resolve I ref = Some q /\ closed I n' q
+      | RComposite a _ b => (exists q, resolve I a = Some q /\ closed I n' q) /\ (exists q, resolve I b = Some q /\ closed I n' q)
+      end
+  end.
+
+(* every ColrLayers range has at most B layers (B = 255 for every real table: num_layers is a u8) *)
+Definition layers_le (B : nat) (p : rpaint) : Prop := match p with RLayers _ n => n <= B | _ => True end.
+
 (* ---- concrete graphs for the correspondence shards ---- *)
 Inductive gnode :=
 | GBad                                   (* a paint table whose format byte is invalid *)
